@@ -217,7 +217,9 @@ func c14Run(c *Ctx) {
 	// extra states outside C01's normal form that C14 names explicitly: empty security lists,
 	// requirements with empty scope lists, payloads with nulls and empties at every free-form carrier
 	extras := []docCase{}
-	for _, sec := range []string{`[]`, `[{}]`, `[{"k":[]}]`, `[{"k":["a"]},{"o":[]}]`} {
+	for _, sec := range []string{`[]`, `[{}]`, `[{"k":[]}]`, `[{"k":["a"]},{"o":[]}]`,
+		// several requirements with different non-empty scope lists, several schemes in one requirement
+		`[{"o":["read","write"]},{"p":["admin"]}]`, `[{"o":["a","b","c"]},{"o":["d"]},{"k":[]},{}]`, `[{"o":["r"],"k":[],"p":["x","y"]},{"p":["z"]}]`} {
 		extras = append(extras,
 			docCase{Kind: "operation", Target: "operation", Doc: json.RawMessage(`{"responses":{"200":{"description":"d"}},"security":` + sec + `}`)},
 			docCase{Kind: "swagger", Target: "swagger", Doc: json.RawMessage(`{"swagger":"2.0","info":{"title":"t","version":"1"},"paths":{"/p":{"get":{"responses":{"200":{"description":"d"}},"security":` + sec + `}}},"security":` + sec + `}`)})
